@@ -155,7 +155,7 @@ def run(tier, seed, replay=None):
     outs = C.run_model(lines)
     evals = 0
     nontriv = set()
-    corr_bad = None
+    corr_bad = C.Corr()
     samples = []
     for c, e in zip(cases, idx):
         evals += 1
@@ -190,8 +190,8 @@ def run(tier, seed, replay=None):
             l1_agrees = False
             if tk.peek() == 'Err':
                 tk.word()
-                if corr_bad is None:
-                    corr_bad = dict(case, what='L1: model make_periodic raises %s, implementation succeeds' % tk.word())
+                if corr_bad.open():
+                    corr_bad += dict(case, what='L1: model make_periodic raises %s, implementation succeeds' % tk.word())
             else:
                 tk.word()
                 dfr = O.snaps_differ(c['closed'], O.read_obj(tk))
@@ -207,13 +207,13 @@ def run(tier, seed, replay=None):
             tk = outs[e['l1']]
             if tk.peek() == 'Err':
                 tk.word()
-                if corr_bad is None:
-                    corr_bad = dict(case, what='L1: model lower_periodic raises %s, implementation succeeds' % tk.word())
+                if corr_bad.open():
+                    corr_bad += dict(case, what='L1: model lower_periodic raises %s, implementation succeeds' % tk.word())
             else:
                 tk.word()
                 dfr = O.snaps_differ(c['post'], O.read_obj(tk))
-                if dfr and corr_bad is None:
-                    corr_bad = dict(case, what='L1: lower_periodic result differs from model: ' + dfr)
+                if dfr and corr_bad.open():
+                    corr_bad += dict(case, what='L1: lower_periodic result differs from model: ' + dfr)
             post = c['post']
             if post['bases'][c['d']]['periodic'] != c['arg']:
                 V.failure(dict(case, what='L2: periodicity after lower_periodic is %d, requested %d' % (post['bases'][c['d']]['periodic'], c['arg'])))
@@ -225,7 +225,7 @@ def run(tier, seed, replay=None):
                 V.failure(dict(case, what='L2: lowering the periodic continuity changed the map: ' + df[1], param=[str(x) for x in e['probes'][df[0]]]))
         if len(samples) < 3 and op == 'open_close':
             samples.append(case)
-    rc = V.finish(l0, corr_bad if not V.fail else None)
+    rc = V.finish(l0, corr_bad)
     C.write_evidence(PID, tier, seed, l0, {
         'evaluations': evals, 'distinct_nontrivial': len(nontriv),
         'rule': 'random objects with at least one periodic direction (orders 2-6, every continuity, 1-8 functions, pardim 1-3); '
